@@ -296,6 +296,14 @@ class World:
         br = cfg["breaker"]
         if br is not None:
             self.breaker = self.make_breaker(br)
+            for step in br.get("pre", ()):
+                # silent pre-history (not part of the trace): reach e.g. "open and due"
+                if step[0] == "fail":
+                    CircuitBreaker.record_failure(self.breaker, KL[step[1]])
+                elif step[0] == "tick":
+                    E.advance(step[1] * TAU)
+                elif step[0] == "allow":
+                    CircuitBreaker.allow(self.breaker)
 
     def make_breaker(self, br):
         world = self
